@@ -283,5 +283,6 @@ func runC09(e *Engine, r *Report) {
 	ruleSnapshotRecordKeepsLogEnd(e, r)
 	ruleRemoveNodeDataOrder(e, r)
 	ruleTanCompactionUpdate(e, r)
+	ruleTanRemoveAllFirst(e, r)
 	borrow(e, r, "C20", "MPT-import-batch")
 }
